@@ -36,6 +36,10 @@ fn main() {
         genseeds();
         return;
     }
+    if args[1] == "replay" {
+        let code = replay(args.get(2).map(|s| s.as_str()).unwrap_or_else(|| usage()));
+        std::process::exit(code);
+    }
     let id = args[1].as_str();
     let tier = args.get(2).cloned().or_else(|| std::env::var("VERIF_TIER").ok()).unwrap_or_else(|| "quick".into());
     let thorough = tier == "thorough";
@@ -49,8 +53,11 @@ fn main() {
             if !report::stopped() {
                 run_e1_property(id, thorough, &mut ev, t0);
             }
-            if !e2_first && id != "C01" && id != "C04" && !report::stopped() {
+            if !e2_first && !report::stopped() {
                 run_e2_property(id, thorough, &mut ev);
+            }
+            if matches!(id, "C03" | "C04" | "C07" | "C08" | "C10" | "C13" | "C19") && !report::stopped() {
+                run_e3_property(id, thorough, &mut ev);
             }
         }
         "C09" => {
@@ -123,27 +130,61 @@ fn main() {
 
 fn run_e1_property(id: &str, thorough: bool, ev: &mut Evidence, t0: Instant) {
     let checks = check_bit(id);
-    let cap = if thorough { Duration::from_secs(3600) } else { Duration::from_secs(45) };
+    let cap = if thorough { Duration::from_secs(3300) } else { Duration::from_secs(50) };
     let deadline = Some(t0 + cap);
-    let mut fams: Vec<families::Family> = vec![families::f1(), families::f2()];
-    fams.push(families::fd(2, 2, families::all_anchors(2, 2), 3, "all 49 anchors"));
-    fams.push(families::fs(&verif_dir().join("seeds")));
+    let seeds = families::fs(&verif_dir().join("seeds"));
+    let mut fams: Vec<families::Family> = vec![families::f1(), families::f2(), families::fd(2, 2, families::all_anchors(2, 2), 3, "all 49 anchors"), seeds];
     if thorough {
         fams.push(families::f3w(None, &families::ALL_KINDS, "all 36 windows, all 12 kinds"));
+        let a23: Vec<(usize, usize)> = vec![(0, 0), (1, 1), (4, 1), (2, 4), (5, 5), (3, 3)];
+        let a32: Vec<(usize, usize)> = vec![(0, 0), (1, 1), (4, 4), (1, 4), (6, 5), (3, 2)];
+        fams.push(families::fd(2, 3, a23, 3, "6 anchors (corner, trap neighbourhoods, centre)"));
+        fams.push(families::fd(3, 2, a32, 3, "6 anchors (corner, trap neighbourhoods, centre)"));
+        fams.push(families::f3r(&families::KINDS6, "RDErde"));
     } else {
-        fams.push(families::f3w(Some(&families::QUICK_ANCHORS), &families::KINDS8, "9 windows (corners, trap-centred, centre), kinds RCDErcde"));
+        fams.push(families::f3w(Some(&families::QUICK_ANCHORS5), &families::KINDS8, "5 windows (a1 corner, h8 corner, c3-centred, f6-centred, centre), kinds RCDErcde"));
     }
+    let mut first_f1: Option<report::Stats> = None;
     for fam in fams.iter() {
         if fam.n == 0 {
             continue;
         }
-        let o = e1::E1Opts { prop: id, checks, move_number: 2, deadline, chunk: 1, roots_only: false };
+        let extra = if id == "C08" && fam.name.starts_with("F1 ") {
+            PARSE_LINK
+        } else if id == "C08" && fam.name.starts_with("FS ") {
+            PARSE_LINK_ROOT
+        } else {
+            0
+        };
+        let o = e1::E1Opts { prop: id, checks: checks | extra, move_number: 2, deadline, chunk: 1, roots_only: false };
         let r = e1::run_family(fam, &o);
         eprintln!("  {} : roots={} states={} transitions={} {:.1}s {}", r.family, r.stats.roots, r.stats.states, r.stats.transitions, r.wall_s, r.note);
+        if fam.name.starts_with("F1 ") {
+            first_f1 = Some(r.stats.clone());
+        }
         ev.families.push(r);
         if report::stopped() {
             break;
         }
+    }
+    if id == "C03" && !report::stopped() {
+        for mn in [1usize, 3, 50, 1_000_000, (1usize << 32) + 1] {
+            let o = e1::E1Opts { prop: id, checks, move_number: mn, deadline, chunk: 1, roots_only: false };
+            let mut r = e1::run_family(&families::f1(), &o);
+            r.family = format!("{} — starting move number {}", r.family, mn);
+            ev.families.push(r);
+        }
+    }
+    // determinism: the same family explored with a different thread partition must give identical counts and digest
+    if let (Some(f1), false) = (first_f1, report::stopped()) {
+        let pool = rayon::ThreadPoolBuilder::new().num_threads(3).build().unwrap();
+        let o = e1::E1Opts { prop: id, checks, move_number: 2, deadline: None, chunk: 1, roots_only: false };
+        let again = pool.install(|| e1::run_family(&families::f1(), &o));
+        if again.stats.states != f1.states || again.stats.transitions != f1.transitions || again.stats.digest != f1.digest {
+            println!("MACHINERY-ERROR: re-exploring F1 with a different thread partition gave different counts/digest ({} / {} / {:016x} vs {} / {} / {:016x})", again.stats.states, again.stats.transitions, again.stats.digest, f1.states, f1.transitions, f1.digest);
+            std::process::exit(2);
+        }
+        ev.extra.insert("determinism_rerun".into(), serde_json::json!({"family": "F1", "threads": 3, "states": again.stats.states, "transitions": again.stats.transitions, "digest": format!("{:016x}", again.stats.digest), "identical": true}));
     }
     ev.nontrivial_rule = "distinct = distinct (root, board, step, status, parse-set) keys; non-trivial counted per property in 'counters'".into();
     ev.nontrivial_keys = match id {
@@ -162,6 +203,16 @@ fn run_e1_property(id: &str, thorough: bool, ev: &mut Evidence, t0: Instant) {
         "C19" => vec!["c19_queries"],
         _ => vec![],
     };
+}
+
+/// Setup sub-tries for the properties that also quantify over setup states.
+fn run_e3_property(id: &str, thorough: bool, ev: &mut Evidence) {
+    let checks = check_bit(id) | if id == "C08" || id == "C15" { PARSE_LINK } else { 0 };
+    let d = if thorough { 9 } else { 7 };
+    ev.families.push(e3::run_trie(id, checks, "", d, "Gold sub-trie from the empty board"));
+    ev.families.push(e3::run_trie(id, checks, "rhrdrcremrcrdrhr", d - 1, "Silver sub-trie after Gold's order rhrdrcremrcrdrhr"));
+    // the last placements of Silver, down to the start of play (leaves): prefix of 16 + 10 placements
+    ev.families.push(e3::run_trie(id, checks, "cdhmehdcrrrrrrrrrrrrrrhd", 15, "the last 8 placements of Silver after a fixed prefix, down to the start of play"));
 }
 
 fn run_e2_property(id: &str, thorough: bool, ev: &mut Evidence) {
@@ -249,4 +300,107 @@ fn genseeds() {
     }
     std::fs::write(verif_dir().join("seeds").join("generated.txt"), out).unwrap();
     println!("wrote {} seeds", count);
+}
+
+/// `mc replay <violation.json>`: rebuilds the situation with plain from_str / take_action calls (no explorer, no
+/// enumeration), prints what the engine answers there, and re-evaluates the property's oracles along that one path.
+fn replay(path: &str) -> i32 {
+    use arimaa_engine_step::*;
+    let text = std::fs::read_to_string(path).unwrap_or_else(|e| {
+        eprintln!("cannot read {}: {}", path, e);
+        std::process::exit(2)
+    });
+    let v: serde_json::Value = serde_json::from_str(&text).expect("violation file is JSON");
+    let prop = v["property"].as_str().unwrap_or("").to_string();
+    let explorer = v["explorer"].as_str().unwrap_or("").to_string();
+    let actions: Vec<String> = v["actions"].as_array().map(|a| a.iter().filter_map(|x| x.as_str().map(String::from)).collect()).unwrap_or_default();
+    println!("replaying {} ({}): {}", prop, explorer, v["what"].as_str().unwrap_or(""));
+    println!("recorded: observed {} / expected {}", v["observed"], v["expected"]);
+    match explorer.as_str() {
+        "E4" => {
+            let input = v["config"]["input"].as_str().unwrap_or("");
+            let parser = v["config"]["parser"].as_str().unwrap_or("");
+            let r = std::panic::catch_unwind(|| match parser {
+                "Action" => format!("{:?}", input.parse::<Action>().map(|x| x.to_string()).map_err(|e| e.to_string())),
+                "Square" => format!("{:?}", input.parse::<Square>().map(|x| x.to_string()).map_err(|e| e.to_string())),
+                "Piece" => format!("{:?}", input.parse::<Piece>().map(|x| x.to_string()).map_err(|e| e.to_string())),
+                "Direction" => format!("{:?}", input.parse::<Direction>().map(|x| x.to_string()).map_err(|e| e.to_string())),
+                _ => format!("{:?}", input.parse::<GameState>().map(|x| x.to_string()).map_err(|e| e.to_string())),
+            });
+            match r {
+                Ok(s) => {
+                    println!("{}::from_str({:?}) now returns {}", parser, input, s);
+                    0
+                }
+                Err(_) => {
+                    println!("{}::from_str({:?}) PANICS: {}", parser, input, last_panic());
+                    println!("VIOLATION property={} replay={}", prop, path);
+                    1
+                }
+            }
+        }
+        "E5" | "E7" => {
+            println!("constructed case: {}\n(re-run `./check {} quick` to re-evaluate; for E7 run the command in 'root' from /verif)", v["root"], prop);
+            0
+        }
+        _ => {
+            let root_text = v["root"].as_str().unwrap_or("");
+            let mut gs: GameState = if root_text == "initial" { GameState::initial() } else { root_text.parse().expect("root diagram parses") };
+            println!("root:\n{}", gs);
+            for (i, a) in actions.iter().enumerate() {
+                let act: Action = a.parse().expect("action parses");
+                let offered = gs.valid_actions().contains(&act);
+                gs = gs.take_action(&act);
+                println!("after {:>2}. {}{}:", i + 1, a, if offered { "" } else { "  (NOT in valid_actions())" });
+            }
+            println!("{}", gs);
+            let r = std::panic::catch_unwind(std::panic::AssertUnwindSafe(|| {
+                println!("valid_actions()        = {:?}", gs.valid_actions());
+                println!("valid_actions_no_rep() = {:?}", gs.valid_actions_no_rep());
+                println!("is_terminal()          = {:?}", gs.is_terminal());
+                println!("transposition_hash()   = {:016x}", gs.transposition_hash());
+                if let Some(pp) = gs.as_play_phase() {
+                    println!("step {} status {:?} trapped_this_turn {} history len {}", pp.step(), pp.push_pull_state(), pp.piece_trapped_this_turn(), pp.hash_history().len());
+                }
+            }));
+            if r.is_err() {
+                println!("PANIC while querying: {}", last_panic());
+            }
+            // re-evaluate the oracles of this property along the one recorded path
+            if root_text != "initial" && !explorer.starts_with("E1x4") && !explorer.starts_with("E2x4") {
+                if let Ok((board, gold, mn)) = families::board_from_diagram(root_text) {
+                    let root = RootInfo { explorer: "replay", family: "replay".into(), idx: 0, board, gold, move_number: mn, config: serde_json::Value::Null };
+                    let mut ctx = Ctx::new(check_bit(&prop) | if prop == "C01" { 0 } else { 0 }, &prop, &root);
+                    let rr = std::panic::catch_unwind(std::panic::AssertUnwindSafe(|| {
+                        let mut node = root_node(&root);
+                        turn_start_oracles(&mut ctx, &node, None);
+                        for a in actions.iter() {
+                            let act: Action = a.parse().unwrap();
+                            let succ = visit(&mut ctx, &node);
+                            ctx.path.push(act);
+                            match succ.into_iter().find(|s| s.action == act) {
+                                Some(s) => node = s.node,
+                                None => return,
+                            }
+                        }
+                        let _ = visit(&mut ctx, &node);
+                    }));
+                    if rr.is_err() {
+                        println!("PANIC in the engine during `{}`: {}", ctx.query, last_panic());
+                        println!("VIOLATION property={} replay={}", prop, path);
+                        return 1;
+                    }
+                }
+                let vs = report::VIOLATIONS.lock().unwrap();
+                if let Some(x) = vs.first() {
+                    println!("oracle re-evaluated on this path: {}\n  observed: {}\n  expected: {}", x.what, x.observed, x.expected);
+                    println!("VIOLATION property={} replay={}", prop, path);
+                    return 1;
+                } else {
+                    println!("oracle re-evaluated on this path: no violation (the recorded failure does not reproduce on the current tree)");
+                }
+            }
+            0
+        }
+    }
 }
